@@ -108,9 +108,39 @@ Theorem failed_data_sync_is_retried : forall cfg s keep final t,
 Proof. exact failed_sync_is_retried. Qed.
 Print Assumptions failed_data_sync_is_retried.
 
+(** Ranking on the loops' program counters, per commit cycle (PARTIAL, see the
+    note below): every own step of a loop that is not a failed I/O call
+    strictly decreases the loop's rank, or it is the last step of
+    writePersistentState — NotifyPersistentStateWritten, which releases exactly
+    the blocks recorded by the preceding GetPersistentState; a failed I/O call
+    raises the rank by at most 3 (and is retried, see above); steps of all other
+    threads and of the environment leave the rank unchanged. *)
+Theorem release_rank_partial : forall cfg alloc oldest init t0 s, reachable cfg alloc oldest init t0 s ->
+  (forall a s', step cfg s (EStep TR a) = Some (Ok s') ->
+     if r_fails s a then r_dist s' <= r_dist s + 3
+     else r_dist s' < r_dist s \/
+          (s_r s = RW WWritten /\ s_r s' = RStart /\
+           releasedLog (s_pbl s') = releasedLog (s_pbl s) ++ firstn (releasing (s_pbl s)) (toRelease (s_pbl s))))
+  /\ (forall e s', (forall a, e <> EStep TR a) -> step cfg s e = Some (Ok s') -> r_dist s' = r_dist s).
+Proof. exact release_rank_reach. Qed.
+Print Assumptions release_rank_partial.
+
+Theorem put_rank_partial : forall cfg alloc oldest init t0 s, reachable cfg alloc oldest init t0 s ->
+  (forall a s', step cfg s (EStep TP a) = Some (Ok s') ->
+     if p_fails s a then p_dist s' <= p_dist s + 3
+     else p_dist s' < p_dist s \/
+          (exists k, s_p s = PW k WWritten /\ s_p s' = (if k then PStart else PExit) /\
+           releasedLog (s_pbl s') = releasedLog (s_pbl s) ++ firstn (releasing (s_pbl s)) (toRelease (s_pbl s))))
+  /\ (forall e s', (forall a, e <> EStep TP a) -> step cfg s e = Some (Ok s') -> p_dist s' = p_dist s).
+Proof. exact put_rank_reach. Qed.
+Print Assumptions put_rank_partial.
+
 (** NOT PROVED (kept as the full statements; what is proved instead is the
-    `_never_stalls` pair above, i.e. the "never disabled while work is
-    pending" half of the ranking argument, plus the retry theorems):
+    `_never_stalls` pair (never disabled while work is pending), the retry
+    theorems and the per-cycle `_rank_partial` pair; missing is the link from
+    "a cycle completes" to "THIS upload / THESE blocks are covered", which
+    needs ghost state relating [s_writes] to acknowledged uploads, and the
+    fair-schedule liveness corollary):
 
     put_rank / release_rank : sys -> nat -> nat  (target = number of blocks to be
     released resp. absolute epoch to be committed) with
